@@ -14,7 +14,20 @@ from core.wire import line, parse_reply, Atom, atom
 ID = "C24"
 LEAN_TARGETS = ["TornadoModel.C24.Props"]
 THEOREMS = [
-    "TornadoModel.C24.stub",
+    "TornadoModel.C24.issued_accepted",
+    "TornadoModel.C24.decode_issued",
+    "TornadoModel.C24.decode_issue_v1",
+    "TornadoModel.C24.decode_issue_v2",
+    "TornadoModel.C24.accept_iff",
+    "TornadoModel.C24.decode_total",
+    "TornadoModel.C24.malformed_refused",
+    "TornadoModel.C24.no_cookie_needs_fresh",
+    "TornadoModel.C24.pick_form",
+    "TornadoModel.C24.pick_h1",
+    "TornadoModel.C24.pick_h2",
+    "TornadoModel.C24.pyInt_toDec",
+    "TornadoModel.C24.unhex_hexOfBytes",
+    "TornadoModel.C24.xorFrom_involutive",
 ]
 TRUSTED = [
     "CPython re (the version regex), str.split, binascii.a2b_hex/b2a_hex, int(str), hmac.compare_digest, utf-8 "
@@ -42,9 +55,14 @@ RULE = ("cookie/token pairs: issued (v1/v2), re-masked, cross-version, other ses
 EXHAUSTIVE = {"quick": False, "thorough": False}
 CLAUSES = {
     "a non-GET/HEAD/OPTIONS request reaches the handler iff it carries a token that decodes to the same non-empty "
-    "secret as the _xsrf cookie": "tie only",
-    "every token the application issues for a cookie (any version, any mask) is accepted with that cookie": "tie only",
-    "malformed tokens or cookies yield 403, never a server error": "tie only",
+    "secret as the _xsrf cookie": "accept_iff + no_cookie_needs_fresh + pick_form/pick_h1/pick_h2 (model); the link "
+                                  "model = Spec.accepts is check_eq_spec_goal — tie only: Spec.accepts is applied to "
+                                  "the real implementation as the oracle (e2e stream); GET/HEAD/OPTIONS: tie only",
+    "every token the application issues for a cookie (any version, any mask) is accepted with that cookie":
+        "issued_accepted + decode_issued (every secret, mask, timestamp, version pair); session form "
+        "session_issued_accepted_goal — tie only (issue stream)",
+    "malformed tokens or cookies yield 403, never a server error": "decode_total + malformed_refused (model); status "
+                                                                   "codes and absence of logged errors: tie only",
 }
 PARALLEL = True
 CASE_TIMEOUT = 120      # a loaded machine must not turn a scheduling stall into a verdict
@@ -187,8 +205,12 @@ def gen_cases(rng, tier):
         k = rng.random()
         cookie = _token_text(rng, secret, full=False) if k < 0.85 else (None if k < 0.92 else _arb(rng, full=False))
         k = rng.random()
-        if k < 0.6:
+        if k < 0.52:
             token = _token_text(rng, secret, full=False)                     # same session (possibly re-masked / near miss)
+        elif k < 0.6:                                                        # a prefix / suffix / extension of the secret
+            other = rng.choice([secret[:max(0, len(secret) - rng.randint(1, 3))], secret[1:], secret + b"\x00",
+                                secret + _rb(rng, 1), secret[:1]])
+            token = rng.choice([mk_v1(other), mk_v2(other, _rb(rng, 4))])
         elif k < 0.8:
             token = _token_text(rng, _secret(rng), full=False)               # another session's token
         elif k < 0.88:
